@@ -68,22 +68,33 @@ def instances(tier, seed):
                       ({'fam': 'L1', 'bn_stats': 'generic', 'pit': {'fold_bn': fold}}, False)]
     for spec, symw in progs:
         out.append({'id': pitlib.prog_id(spec) + (':symw' if symw else ''), 'spec': spec, 'symw': symw, 'wseed': seed})
+    # the masks are written (through .data / in place under no_grad) into a model that has already been evaluated, summarised and exported
+    # at its previous masks: nothing derived from the old values may survive
+    hp = [{'fam': 'T1', 'K': 3, 'd0': 1, 's': 1, 'C': 2}, {'fam': 'T2', 'K0': 2, 'K1': 1, 'T': 2}] + ([{'fam': 'D2', 'C': 2}, {'fam': 'A1', 'K': 2, 'C': 2}] if tier != 'quick' else [])
+    for spec in hp:
+        for hist in ('data', 'nograd'):
+            out.append({'id': pitlib.prog_id(spec) + f':after_use+{hist}', 'spec': spec, 'symw': False, 'wseed': seed, 'hist': hist})
     return out
 
 
 # ---------------------------------------------------------------------------------------------------------------------
-def concrete_compare(spec, wseed, masks, xvals, weights=None):
+def concrete_compare(spec, wseed, masks, xvals, weights=None, hist=None, nograd=True):
     """plain torch: returns (max abs difference, info) between PIT.eval() and export().eval()"""
     pit, model, shape = pitlib.make_pit(spec, wseed)
+    if hist:
+        with torch.no_grad():
+            pit(torch.zeros((1,) + tuple(shape)))
+            pit.summary()
+            pit.export()
     if weights:
         with torch.no_grad():
             for name, vals in weights.items():
                 mod, pname = name.rsplit('.', 1)
                 p = getattr(pit.seed.get_submodule(mod), pname)
                 p.copy_(torch.tensor([float(Fraction(v)) for v in vals], dtype=torch.float32).reshape(p.shape))
-    pitlib.set_masks(pit, masks)
+    pitlib.set_masks(pit, masks, hist or 'nograd')
     x = torch.tensor([float(Fraction(v)) for v in xvals], dtype=torch.float32).reshape((1,) + tuple(shape))
-    with torch.no_grad():
+    with (torch.no_grad() if nograd else torch.enable_grad()):
         y0 = pit(x)
         try:
             e = pit.export()
@@ -93,12 +104,17 @@ def concrete_compare(spec, wseed, masks, xvals, weights=None):
             return float('inf'), f'export/run raised {type(ex_).__name__}: {ex_}'
     if tuple(y0.shape) != tuple(y1.shape):
         return float('inf'), f'shape {tuple(y0.shape)} vs {tuple(y1.shape)}'
-    d = float((y0 - y1).abs().max())
+    d = float((y0.detach() - y1.detach()).abs().max())
     return d, f'PIT={y0.reshape(-1).tolist()} exported={y1.reshape(-1).tolist()} summary={pit.summary()}'
 
 
 def replay(rec):
-    d, info = concrete_compare(rec['spec'], rec.get('wseed', 0), rec['masks'], rec['x'], rec.get('weights'))
+    d, info = concrete_compare(rec['spec'], rec.get('wseed', 0), rec['masks'], rec['x'], rec.get('weights'), rec.get('hist'))
+    if d <= 1e-4:
+        # the comparison is legitimate with and without autograd recording (the symbolic run records): try the other mode too
+        d2, info2 = concrete_compare(rec['spec'], rec.get('wseed', 0), rec['masks'], rec['x'], rec.get('weights'), rec.get('hist'), nograd=False)
+        if d2 > d:
+            d, info = d2, 'with autograd enabled: ' + info2
     scale = max(1.0, max(abs(float(Fraction(v))) for v in rec['x']) if rec['x'] else 1.0)
     return d > 1e-4 * scale, f'max|PIT - exported| = {d}; {info}'[:900]
 
@@ -107,6 +123,13 @@ def run_instance(p):
     res = InstanceResult(p['id'])
     spec, wseed, symw, selftest = p['spec'], p.get('wseed', 0), p.get('symw', False), p.get('selftest', False)
     pit, model, shape = pitlib.make_pit(spec, wseed)
+    hist = p.get('hist')
+
+    def prefix():
+        with torch.no_grad():
+            pit(torch.zeros((1,) + tuple(shape)))
+            pit.summary()
+            pit.export()
     wnames = []
     if symw:
         for lname, layer in pitlib.pit_layers(pit):
@@ -120,7 +143,7 @@ def run_instance(p):
             w = SymTensor.fresh(qn.replace('.', '_'), tuple(getattr(layer, pname).shape))
             pairs.append((layer, pname, w))
             wsy[qn] = w
-        with SymMode(), swapped_params(pairs):
+        with SymMode(), (st.written_params(pairs, prefix, hist) if hist else swapped_params(pairs)):
             x = SymTensor.fresh('x', (1,) + tuple(shape))
             y0 = pit(x)
             try:
@@ -169,11 +192,11 @@ def run_instance(p):
             m2 = m2 or m
             rec = {'spec': spec, 'wseed': wseed, 'masks': pitlib.values_of(m2, sy), 'x': pitlib.input_values(m2, x),
                    'weights': {k: [st.model_value(m2, v) for v in w.elems()] for k, w in wsy.items()} or None,
-                   'observable': obs, 'summary': summ, 'err': err}
+                   'observable': obs, 'summary': summ, 'err': err, 'hist': hist}
             ks = ''
             if summ and 'c0' in summ and 'kernel_size' in summ['c0']:
                 ks = f"|c0:k={summ['c0']['kernel_size']},d={summ['c0']['dilation']}"
-            rec['key'] = f'{pitlib.prog_id(spec)}|{obs}{ks}' + ('|selftest' if selftest else '')
+            rec['key'] = f'{pitlib.prog_id(spec)}' + (f':after_use+{hist}' if hist else '') + f'|{obs}{ks}' + ('|selftest' if selftest else '')
             rec['what'] = f'{pitlib.prog_id(spec)}: exported network differs from the PIT model ({obs}) at summary {summ} {err or ""}'
             if selftest:
                 res.violations.append(jsonable(rec))
@@ -191,7 +214,7 @@ def run_instance(p):
                 if m2 is not None:
                     masks, xv = pitlib.values_of(m2, sy), pitlib.input_values(m2, x)
                     weights = {k: [st.model_value(m2, v) for v in w.elems()] for k, w in wsy.items()} or None
-                    d, info = concrete_compare(spec, wseed, masks, xv, weights)
+                    d, info = concrete_compare(spec, wseed, masks, xv, weights, hist)
                     if n <= 2:
                         res.sample({'program': pitlib.prog_id(spec), 'summary': summ, 'masks': masks, 'x': xv, 'max_abs_diff_torch': d})
                     if d <= 1e-3:
